@@ -306,21 +306,7 @@ def run_converge(ctx, n, sweep=False, ambient=False):
 # Findings of this check that are not fixed in /repo (see notes/C01.md). The coordinator records them in
 # known-findings.json; until the entry is there the check uses this local copy, so that exactly this input class is
 # reported as KNOWN-FINDING while any other difference still fails the run.
-LOCAL_KNOWN = [
-    {"property_id": "C01", "status": "known", "fingerprint": "converge:stale-vs-cold-start:CDS:stale-san",
-     "what": "service accounts of a service whose last endpoint of a shard disappeared stay in the SAN list of its clusters "
-             "(EndpointIndex.UpdateServiceEndpoints returns before updateShardServiceAccount when the endpoint list is empty): "
-             "a long-lived istiod keeps trusting them, a cold-started one does not"},
-    {"property_id": "C01", "status": "known", "fingerprint": "converge:stale-vs-cold-start:CDS:stale-mx",
-     "what": "ambient interop (PILOT_ENABLE_AMBIENT=true): cluster metadata disable_mx/external derived from endpoint membership is "
-             "not refreshed on endpoint-only changes (same finding as converge:stale-vs-fresh-client:CDS:stale-mx, seen against the "
-             "cold start)"},
-    {"property_id": "C01", "status": "known", "fingerprint": "converge:stale-vs-fresh-client:CDS:stale-mx",
-     "what": "ambient interop (PILOT_ENABLE_AMBIENT=true): the cluster metadata disable_mx/external of sidecars and gateways is "
-             "derived from the endpoints of the service (PushContext.AllInstancesSupportHBONE: the PushContext instance index, not "
-             "rebuilt on endpoint-only changes, combined with live ambient-index lookups), but endpoint-only changes skip CDS: "
-             "connected proxies keep the old flag and newly connecting proxies get one computed from stale instances"},
-]
+LOCAL_KNOWN = []  # every known finding lives in /verif/known-findings.json
 
 
 def run(ctx):
